@@ -114,6 +114,7 @@ type Stats struct {
 	Paths            [NPaths]int64
 	Panics           int64
 	BystanderOps     int64
+	ObserverReuse    int64
 	FilterReuse      int64
 	NestedRows       int64
 	NestedSameObject int64 // rejected calls made from a callback through the object the running op was called on
@@ -158,6 +159,16 @@ func NewDrv(name string, cfg Config, m *Model, st *Stats) *Drv {
 	d.U = d.W.Unsafe()
 	for k := 0; k < cfg.Fillers; k++ {
 		ecs.TypeID(d.W, u.Filler(k))
+	}
+	if (cfg.Fillers+len(cfg.Caps))%2 == 1 {
+		// in half of the configurations the registration of a (pointer-free) type is attempted and rejected on the locked
+		// world first: the next type registered - a universe type - gets the ID that was rolled back, and nothing else of it
+		q := ecs.NewFilter0(d.W).Query()
+		func() {
+			defer func() { recover() }()
+			ecs.TypeID(d.W, u.Filler(3000))
+		}()
+		q.Close()
 	}
 	perm := cfg.Perm
 	if perm == nil {
